@@ -1,6 +1,6 @@
 import Ecal.Drivers.Util
 import Ecal.Model.Expr
-import Ecal.Model.Lexer
+import Ecal.Model.ExprLex
 import Ecal.Gen.C03
 /-!
 Driver of C03. Payload (space separated), see `go/cmd/harness/c03.go`:
@@ -304,39 +304,6 @@ def envCfg (tb : Tables) (env : List (Str × Val Float)) : Cfg Float :=
 /-! ### tokens: the Lean lexer model (`Ecal.Lex`, tied to lexer.go by C18/C07) on the source —
     the model does not see the output of the real lexer -/
 
-def binOpOfText : String → Option BinOp
-  | ">=" => some .geq | "<=" => some .leq | "!=" => some .neq | "==" => some .eq
-  | ">" => some .gt | "<" => some .lt
-  | "+" => some .plus | "-" => some .minus | "*" => some .times | "/" => some .div
-  | "//" => some .divint | "%" => some .modint
-  | "and" => some .and | "or" => some .or
-  | "like" => some .like | "in" => some .isin | "hasprefix" => some .hasprefix
-  | "hassuffix" => some .hassuffix | "notin" => some .notin | ":=" => some .assign
-  | _ => none
-
-/-- token id → its text in the lexer's symbol / keyword tables -/
-def idText (id : Nat) : Option String :=
-  ((Ecal.Lex.symbolTable ++ Ecal.Lex.keywordTable).find? (·.2 = id)).map (·.1)
-
-/-- `none` for a NUMBER whose float bits were not shipped -/
-def tkOfLex (num : List (Str × Nat)) (t : Ecal.Lex.Tok) : Option TK :=
-  if t.id = Ecal.Lex.tEOF then some .eof
-  else if t.id = Ecal.Lex.tSTRING then some (.atom (.str t.val))
-  else if t.id = Ecal.Lex.tIDENTIFIER then some (.atom (.ident t.val))
-  else if t.id = Ecal.Lex.tNUMBER then (num.find? (·.1 = t.val)).map fun (_, b) => .atom (.num t.val b)
-  else if t.id = Ecal.Lex.tERROR then some (.other (strBytes "ERROR"))
-  else match idText t.id with
-    | some "(" => some .lp | some ")" => some .rp | some "[" => some .lb | some "]" => some .rb
-    | some "," => some .comma
-    | some "not" => some (.not t.val)
-    | some "true" => some (.atom (.tru t.val))
-    | some "false" => some (.atom (.fls t.val))
-    | some "null" => some (.atom (.null t.val))
-    | some s => some (match binOpOfText s with
-                      | some o => .op o t.val
-                      | none => .other (strBytes s))
-    | none => some (.other (strBytes "?"))
-
 def lowerStr (s : Str) : Str := s.map fun c => if 65 ≤ c ∧ c ≤ 90 then c + 32 else c
 
 /-- the generator's INTENDED token texts against the lexed tokens: same number of tokens, same
@@ -409,15 +376,14 @@ def runCase (payload : String) : String :=
            | some s => ((s.splitOn ",").mapM hexDecode).map some) with
     | some src, some [c1, c2, c3], some num, some ft, some rx, some envs, some intended =>
       let tb : Tables := { convNaN := c1, convPos := c2, convNeg := c3, ftext := canonFText ft, regex := rx }
-      let lexed := (Ecal.Lex.lex src).toList
-      match lexed.mapM (fun t => (tkOfLex num t).map fun k => LTok.mk k t.line) with
+      match lexTokens num src with
       | none => "MISSING-NUMBER-BITS"
       | some ts =>
         let lexdiff := match intended with
           | some w => !intendedOk w ts
           | none => false
         if lexdiff then "LEXDIFF the lexer model's tokens are not the generator's intended tokens"
-        else if ts.any (fun t => t.tk == .other (strBytes "ERROR")) then "PARSEERR -"
+        else if ts.any (fun t => t.tk == .other errorName) then "PARSEERR -"
         else if ts.any (fun t => match t.tk with | .other _ => true | _ => false) then "UNSUPPORTED other-token"
         else
           match Impl.parseProgram Ecal.Gen.C03.table (ts.length + 1) ts with
